@@ -134,10 +134,11 @@ Definition sex_decision gstat hap build t : option bool :=
 Definition guess_xx gstat hap build t : option bool :=
   match sex_decision gstat hap build t with Some is_xy => Some (negb is_xy) | None => None end.
 
-(* ---- shift_xx (is_xx already known or guessed; None = guess_xx returned None) ---- *)
-Definition shift_xx (hap : bool) (is_xx : option bool) (t : list bin) : list bin :=
+(* ---- shift_xx (is_xx already known or guessed; None = guess_xx returned None).  The bins moved are
+        those of chr_x_filter(diploid_parx_genome): chrX without PAR1X/PAR2X when a build is given (fix dff7a3e) ---- *)
+Definition shift_xx (hap : bool) (is_xx : option bool) (build : option parb) (t : list bin) : list bin :=
   let xx := match is_xx with Some true => true | _ => false end in
-  let on_x (c : Q) := map (fun b => if String.eqb (b_chrom b) (x_label t) then add_log2 c b else b) t in
+  let on_x (c : Q) := map (fun b => if chr_x_filter t build b then add_log2 c b else b) t in
   if xx && hap then on_x (qneg shift_xx_down)
   else if negb xx && negb hap then on_x shift_xx_up
   else t.
